@@ -21,7 +21,7 @@ theorem C10_stream_order (C : Consts) (hstep : 0 < C.step) (sizes : Nat → Nat)
   exact ((C08.C08_refinement C hstep sizes evs hev).2 p hp hg).2.2
 
 /-- The items of a streaming answer: `n` items numbered in order, all but the last marked continuing. -/
-theorem C10_items (n : Nat) : answer (.sub n) = (List.range n).map (fun i => Tok.I i (decide (i + 1 < n))) := by
+theorem C10_items (n pat : Nat) : answer (.sub n pat) = (List.range n).map (fun i => Tok.I i (flagOf pat n i)) := by
   simp [answer, itemsOf, tokOf, Function.comp_def]
 
 /-- **Resumption**: the invariant `GInv` — which every loop iteration preserves (`Srv.iter_inv`) —
@@ -85,10 +85,10 @@ theorem C10_unwritable_drops_only_subscription (C : Consts) (hstep : 0 < C.step)
 namespace Example
 def C : Consts := C08.Example.C
 /-- one client: streaming call (3 items) with a plain call pipelined behind it; another client calls meanwhile -/
-def a : Conn := C08.Example.conn 0 [[1], [2]] [.sub 3, .echo 5 false]
+def a : Conn := C08.Example.conn 0 [[1], [2]] [.sub 3 0, .echo 5 false]
 def b : Conn := C08.Example.conn 1 [[3]] [.echo 9 false]
 def evs : List Srv.Ev := [.connect a, .connect b, .arrive 0 [1, 0, 2, 0], .run 3, .arrive 1 [3, 0], .run 50]
 example : (runEvs C (fun _ => 100) evs init).all.map (fun c => (c.id, c.out)) =
-    [(1, [.R 9]), (0, [.I 0 true, .I 1 true, .I 2 false, .R 5])] := by decide
+    [(1, [.R 9]), (0, [.I 0 (some true), .I 1 (some true), .I 2 (some false), .R 5])] := by decide
 end Example
 end C10
